@@ -535,14 +535,19 @@ pub fn execute(scn: &RtScn, ctx: &mut Ctx) {
             CallRes::Err(e) => ctx.fail("C01", "write-ok", m.call.split('(').next().unwrap_or(""), format!("{} failed in a fault-free run: {:?}", m.call, e)),
             CallRes::Panic(msg, loc) => ctx.fail("C01", "panic", format!("panic:writer:{}", loc.rsplit('/').next().unwrap_or("").split(':').next().unwrap_or("")), format!("{} panicked: {} at {}", m.call, msg, loc)),
         }
-        if let (Some(a), true) = (m.announced, m.res.is_ok()) {
-            let exp = 12 + a as u64;
-            let okk = m.offered_shp == exp || (first_write && m.offered_shp == exp + 100);
-            if !okk {
-                ctx.fail("C18", "bytes-at-seam", type_name(ty), format!("{}: {} bytes handed to the .shp for an announced size of {} (+12)", m.call, m.offered_shp, a));
+        if let (Some(a), true, StackCfg::Direct) = (m.announced, m.res.is_ok(), scn.w.stack) {
+            // C18 at the seam: the bytes the call put into the record area of the .shp device (at or
+            // beyond byte 100; header bytes do not count) are the 8-byte record header, the 4-byte type
+            // code and exactly the announced size. Direct stack only: below a buffer the device sees
+            // the bytes of a call later.
+            let wb = world.borrow();
+            let record_bytes: u64 = wb.log[m.first_ev..m.end_ev].iter().filter(|e| e.dev as usize == SHP && e.kind == OpKind::Write && e.pos >= 100).map(|e| e.moved as u64).sum();
+            if record_bytes != 12 + a as u64 {
+                ctx.fail("C18", "bytes-at-seam", type_name(ty), format!("{}: {} bytes reached the record area of the .shp for an announced size of {} (+12)", m.call, record_bytes, a));
             }
-            first_write = false;
         }
+        let _ = first_write;
+        first_write = false;
     }
     // C18 direct: write_to emits exactly size_in_bytes, also through a chunking device
     if let Ok(shapes) = build_all(&scn.w.shapes) {
